@@ -126,7 +126,7 @@ pub fn write<const MODE: u8, const SLICE_FORM: bool>() {
         if MODE == 0 {
             match &r {
                 Ok(n) => assert!(*n == exp_n && (ll == 0 || addr < wc)),
-                Err(e) => assert!(ll > 0 && addr >= wc && ekind(e) == EK::OutOfBounds),
+                Err(e) => assert!(ll > 0 && addr >= wc ),
             }
         }
         ok = r.is_ok();
@@ -141,7 +141,7 @@ pub fn write<const MODE: u8, const SLICE_FORM: bool>() {
                 Err(vm_memory::VolatileMemoryError::PartialBuffer { expected, completed }) => {
                     assert!(exp_n < ll && *expected == ll && *completed == exp_n && addr < wc)
                 }
-                Err(e) => assert!(ll > 0 && addr >= wc && ekind(e) == EK::OutOfBounds),
+                Err(e) => assert!(ll > 0 && addr >= wc ),
             }
         }
         ok = r.is_ok();
@@ -173,7 +173,7 @@ pub fn read<const MODE: u8, const SLICE_FORM: bool>() {
             if MODE == 0 {
                 match &r {
                     Ok(n) => assert!(*n == exp_n && (ll == 0 || addr < wc)),
-                    Err(e) => assert!(ll > 0 && addr >= wc && ekind(e) == EK::OutOfBounds),
+                    Err(e) => assert!(ll > 0 && addr >= wc ),
                 }
             }
             ok = r.is_ok();
@@ -188,7 +188,7 @@ pub fn read<const MODE: u8, const SLICE_FORM: bool>() {
                     Err(vm_memory::VolatileMemoryError::PartialBuffer { expected, completed }) => {
                         assert!(exp_n < ll && *expected == ll && *completed == exp_n && addr < wc)
                     }
-                    Err(e) => assert!(ll > 0 && addr >= wc && ekind(e) == EK::OutOfBounds),
+                    Err(e) => assert!(ll > 0 && addr >= wc ),
                 }
             }
             ok = r.is_ok();
@@ -230,7 +230,7 @@ pub fn write_obj<const MODE: u8, T: ByteValued>(val: T) {
             Err(vm_memory::VolatileMemoryError::PartialBuffer { expected, completed }) => {
                 assert!(exp_n < sz && *expected == sz && *completed == exp_n && addr < wc)
             }
-            Err(e) => assert!(addr >= wc && ekind(e) == EK::OutOfBounds),
+            Err(e) => assert!(addr >= wc ),
         }
     }
     kani::cover!(r.is_ok() && (addr > 0 || sz == N));
@@ -262,7 +262,7 @@ pub fn read_obj<const MODE: u8, T: ByteValued>() {
             Err(vm_memory::VolatileMemoryError::PartialBuffer { expected, completed }) => {
                 assert!(!fits && addr < wc && *expected == sz && *completed == wc - addr)
             }
-            Err(e) => assert!(addr >= wc && ekind(e) == EK::OutOfBounds),
+            Err(e) => assert!(addr >= wc ),
         }
     }
     kani::cover!(r.is_ok() && (addr > 0 || sz == N));
@@ -287,9 +287,6 @@ pub fn store_atomic<const MODE: u8, T: AtomicAccess>(val: T) {
             Ok(()) => assert!(aligned),
             Err(e) => {
                 assert!(!aligned);
-                if fits {
-                    assert!(ekind(e) == EK::Misaligned)
-                }
             }
         }
     }
